@@ -1,6 +1,7 @@
 package rules
 
 import (
+	"go/types"
 	"fmt"
 	"go/constant"
 	"go/token"
@@ -178,6 +179,27 @@ func sameCollection(a, b ssa.Value) bool {
 	return false
 }
 
+// rotatedGuard reports whether block p enters header h only under "0 < bound" (the pre-test of a rotated loop).
+func rotatedGuard(p, h *ssa.BasicBlock, bound ssa.Value) bool {
+	iff, ok := p.Instrs[len(p.Instrs)-1].(*ssa.If)
+	if !ok || len(p.Succs) != 2 || p.Succs[0] != h {
+		return false
+	}
+	cmp, ok := iff.Cond.(*ssa.BinOp)
+	if !ok || cmp.Op != token.LSS {
+		return false
+	}
+	if k, isK := core.ConstInt(cmp.X); !isK || k != 0 {
+		return false
+	}
+	if cmp.Y == bound {
+		return true
+	}
+	a, ok1 := core.IsLenOf(cmp.Y)
+	b, ok2 := core.IsLenOf(bound)
+	return ok1 && ok2 && sameCollection(a, b)
+}
+
 // loopBound returns the collection X when the loop at header is `for i over [0, len(X))` stepping by one.
 func loopBound(h *ssa.BasicBlock) (ssa.Value, bool) {
 	iff, ok := h.Instrs[len(h.Instrs)-1].(*ssa.If)
@@ -190,7 +212,12 @@ func loopBound(h *ssa.BasicBlock) (ssa.Value, bool) {
 	}
 	x, ok := core.IsLenOf(cmp.Y)
 	if !ok {
-		return nil, false
+		// a loop over an integer N (for range N / for i := 0; i < N; i++): N itself is the counted domain
+		if bt, isB := cmp.Y.Type().Underlying().(*types.Basic); isB && bt.Info()&types.IsInteger != 0 {
+			x = cmp.Y
+		} else {
+			return nil, false
+		}
 	}
 	// induction: either i' = phi + 1 with phi [-1, i'] (range lowering) or phi [0, phi+1] compared directly
 	switch iv := cmp.X.(type) {
@@ -204,9 +231,14 @@ func loopBound(h *ssa.BasicBlock) (ssa.Value, bool) {
 			return nil, false
 		}
 		okInit, okStep := false, false
-		for _, e := range ph.Edges {
+		for i, e := range ph.Edges {
 			if k, ok := core.ConstInt(e); ok && k == -1 {
 				okInit = true
+			} else if k, ok := core.ConstInt(e); ok && k == 0 {
+				// rotated loop (for range N): the body runs before the test, so the entry must be guarded by 0 < N
+				if i < len(h.Preds) && rotatedGuard(h.Preds[i], h, cmp.Y) {
+					okInit = true
+				}
 			} else if e == ssa.Value(iv) {
 				okStep = true
 			}
@@ -262,6 +294,21 @@ func (f *frameClient) Edge(x *core.TSCtx, from, to *ssa.BasicBlock, s string) st
 			st.grp = 0
 		}
 		return st.String()
+	}
+	// the pre-test of a rotated counting loop fails: zero iterations (the domain is empty)
+	if st.lh == 0 && st.grp == 0 && st.cnt != 0 && len(from.Succs) == 2 && to == from.Succs[1] {
+		if _, isHeader := loops[from.Succs[0]]; isHeader {
+			if xv, ok := loopBound(from.Succs[0]); ok && sameCollection(xv, f.vals[st.cnt-1]) {
+				if iff, isIf := last.(*ssa.If); isIf {
+					if cmp, isCmp := iff.Cond.(*ssa.BinOp); isCmp && cmp.Op == token.LSS {
+						if k, isK := core.ConstInt(cmp.X); isK && k == 0 {
+							st.lh = -1
+							return st.String()
+						}
+					}
+				}
+			}
+		}
 	}
 	if st.lh > 0 {
 		var hdr *ssa.BasicBlock
@@ -330,6 +377,14 @@ func (f *frameClient) token(x *core.TSCtx, site ssa.CallInstruction, st fstate, 
 		var coll ssa.Value
 		if ok {
 			coll, ok = core.IsLenOf(cv.X)
+			if !ok {
+				// the count of an integer domain N handed in by the caller: the items must come from a loop over N itself
+				if bt, isB := cv.X.Type().Underlying().(*types.Basic); isB && bt.Info()&types.IsInteger != 0 {
+					if _, isConst := cv.X.(*ssa.Const); !isConst {
+						coll, ok = cv.X, true
+					}
+				}
+			}
 		}
 		if !ok {
 			f.fail(x, site, "count:"+g.name+":not-a-length", "the announced item count is the length of the collection that is emitted", "the count argument is not int16(len(collection))")
@@ -348,6 +403,12 @@ func (f *frameClient) token(x *core.TSCtx, site ssa.CallInstruction, st fstate, 
 		}
 	}
 	st.q++
+	// DataRow: a NULL column is the length -1 alone (no value bytes follow)
+	if st.typ == 'D' && t == tI32 && st.q == len(g.pre)+1 {
+		if cv, ok := x.Const(arg); ok && cv.Kind() == constant.Int && constInt(cv) == -1 {
+			st.q = len(seq)
+		}
+	}
 	if g.group != nil && st.q == len(seq) {
 		st.q = len(g.pre)
 		if st.grp < 2 {
